@@ -52,9 +52,12 @@ def _tables(ref, est):
 def _log_ratio(num, den, base=None):
     """log of the exact ratio num/den (positive integers / Fractions)."""
     q = Fraction(num) / Fraction(den)
-    # log(q) = log(numerator) - log(denominator): both are exact integers, so
-    # nothing is lost to an intermediate rounded quotient
-    v = math.log(q.numerator) - math.log(q.denominator)
+    try:
+        # int / int is correctly rounded in Python: one rounding, then log
+        v = math.log(q.numerator / q.denominator)
+    except OverflowError:
+        # astronomically large counts: log(numerator) - log(denominator)
+        v = math.log(q.numerator) - math.log(q.denominator)
     return v if base is None else v / math.log(base)
 
 
@@ -186,6 +189,25 @@ def ami_is_undefined(ref, est):
     ref, est = _check(ref, est)
     n = len(ref)
     return n >= 2 and len(set(ref)) == n and len(set(est)) == n
+
+
+def ami_denominator(ref, est):
+    """max(H_ref, H_est) - E[MI], the denominator of AMI (nats).  AMI is a
+    quotient of two differences of O(log n) numbers: an absolute error eps in
+    MI / E[MI] / H shows up as about eps / denominator in AMI.  When nearly
+    every frame is its own cluster the denominator is tiny and a floating
+    point implementation with log-gamma based hypergeometric weights loses
+    digits.  Measured against 60-digit arithmetic (n = 250..400, 97% of the
+    frames singletons, denominator 0.07..0.09): this oracle is within 4e-13,
+    the library within 1.5e-10; at denominator 0.016, n = 349 the library is
+    off by 1.05e-9.  A caller comparing AMI should use a tolerance of about
+    1e-9 + 1e-12 * n / ami_denominator (n = number of frames)."""
+    ref, est = _check(ref, est)
+    n = len(ref)
+    _, a, b = _tables(ref, est)
+    if n == 0:
+        return 0.0
+    return max(_entropy(a, n), _entropy(b, n)) - _expected_mi(a, b, n)
 
 
 def mutual_information(ref, est):
